@@ -76,6 +76,8 @@ def warm_quick():
   runs.append(('Bridge', 'Bridge_mc.cfg', dict(workers=1, timeout=900)))
   for md in ('conv', 'convT', 'pool', 'norm'):
     runs.append(('LayerIndex', f'LayerIndex_{md}.cfg', dict(workers=1, timeout=900)))
+  for md in ('rnn', 'attn'):
+    runs.append(('SeqIndex', f'SeqIndex_{md}.cfg', dict(workers=1, timeout=900)))
   runs.append(('NnxGraph', 'NnxGraph_mc.cfg', dict(workers=16, timeout=3000)))
   runs.append(('NnxGraph', 'NnxGraph_small.cfg', dict(workers=1, timeout=3000)))
   return runs
